@@ -371,6 +371,53 @@ class Gen:
                 self.add("addrstr", hx(a), self.shapair(a[:25]))
                 npairs += 1
         self.note("address: multisig (m,n) digit pairs with correct checksum", npairs)
+        # checksum-correct adversarial texts: a character outside the respective alphabet inside the data part,
+        # with the checksum RECOMPUTED over the malformed text, so that only the alphabet check can reject it
+        def std_text(data):           # data: 25 bytes (or another length for the wrong-length variants)
+            return data + py_b58(sha(data[:25]))[:5].encode()
+
+        def msig_text(data):
+            return data + py_b58(sha(data[:25]))[:4].encode() + b"0"
+
+        def adv(text):
+            self.add("addrstr", hx(text), self.shapair(text[:25]))
+
+        foreign = [0x30, 0x4f, 0x49, 0x6c, 0x20, 0x09, 0x2d, 0x5f, 0x2b, 0x2f, 0x40, 0x7e, 0x21, 0x2e, 0x7f, 0x80, 0xff, 0x00]
+        nadv = 0
+        for c in foreign:
+            for pos in (1, 2, 3, 12, 23, 24):
+                body = bytearray(b"V" + "".join(r.choice(B58) for _ in range(24)).encode())
+                body[pos] = c
+                adv(std_text(bytes(body)))                      # standard shape (does not end in '0')
+                nadv += 1
+                mb = bytearray(b"V" + B58[r.below(2)].encode() + B58[1 + r.below(57)].encode() +
+                               "".join(r.choice(B58) for _ in range(22)).encode())
+                mb[pos] = c
+                adv(msig_text(bytes(mb)))                       # multisig shape: '0' is base59 but the first 29 chars must be base58
+                nadv += 1
+        for _ in range(6):                                       # several foreign characters at once
+            body = bytearray(b"V" + "".join(r.choice(B58) for _ in range(24)).encode())
+            for _ in range(r.range(2, 4)):
+                body[r.range(1, 24)] = r.choice([0x30, 0x4f, 0x49, 0x6c])
+            adv(std_text(bytes(body)))
+            nadv += 1
+        for first in b"U1Wv0 ":                                  # wrong starting character, checksum valid for that text
+            data = bytes([first]) + "".join(r.choice(B58) for _ in range(24)).encode()
+            adv(std_text(data))
+            adv(msig_text(data[:1] + b"12" + data[3:]))
+            nadv += 2
+        for n in (23, 25):                                       # wrong lengths +-1 with a checksum that is valid for the text
+            data = b"V" + "".join(r.choice(B58) for _ in range(n)).encode()
+            adv(std_text(data))
+            adv(data + py_b58(sha(data))[:5].encode())
+            adv(msig_text(data))
+            nadv += 3
+        for mch, nch in (("0", "2"), ("1", "0"), ("0", "0"), ("z", "1"), ("3", "2"), ("z", "z"), ("1", "1")):   # m/n outside their rules
+            data = ("V" + mch + nch + "".join(r.choice(B58) for _ in range(22))).encode()
+            adv(msig_text(data))
+            nadv += 1
+        self.note("address: checksum-correct adversarial texts (foreign character classes x positions, both kinds; "
+                  "wrong first char / length / m,n)", nadv)
         for a in valid:
             self.add("addrstr", hx(a), self.shapair(a[:25]))
         ncorr = 0
